@@ -242,6 +242,13 @@ CLAIMED = {
              'ribbon width, both strategies and any evaluator of contextual documents, the stream the model of '
              'best_layout returns is a member of the declarative layout relation Sem.Lay of the document (induction '
              'on the run with a stack invariant; normalisation soundness by structural induction; no size bound). '
+             'C04_annotations_nested / C04_pformat_annotations_nested (Proofs/AnnotProofs.v, AnnotE2E.v): the pushes and '
+             'pops in the emitted stream are properly nested around the fragments they wrap, for every document without '
+             'stack residue and for pformat\'s document of every value; C04_annotations_transparent / '
+             'C04_engine_annotations_transparent: every layout of a document - and the emitted stream - with pushes and '
+             'pops dropped is a layout of the document with all annotations erased; C04_render_only_trims '
+             '(Proofs/RenderProofs.v): for ANY stream the default renderer writes each line\'s text minus a suffix of '
+             'white space, nothing else. '
              'The model is tied to layout.py/doctypes.py/render.py by comparing the complete SDoc stream and the '
              'rendered text on exhaustive small documents and random larger ones. The strict clause (forced breaks '
              'force enclosing groups) is refuted for two by-design classes recorded as open findings and checked on '
